@@ -12,6 +12,10 @@ Definition h_cfg_wire (c : scfg) : bool :=
   (c_self_ip c <? 4294967296) && (net_to (c_db c) <? 4294967296) && h_opts_ok (c_default_opts c) &&
   forallb (fun p => h_opts_ok (snd p)) (c_opts c).
 
+(* the lease time the option lists advertise (option 51, whole seconds) is not longer than the lease the server reserves *)
+Definition h_lease_opt (c : scfg) (os : list dhcp_opt) : bool := (Z.of_N (o_lease (decode_options os)) * 1000000000 <=? c_lease c)%Z.
+Definition h_cfg_lease (c : scfg) : bool := h_lease_opt c (c_default_opts c) && forallb (fun p => h_lease_opt c (snd p)) (c_opts c).
+
 Fixpoint nodup_b {A} (eqb : A -> A -> bool) (l : list A) : bool :=
   match l with [] => true | x :: r => negb (existsb (eqb x) r) && nodup_b eqb r end.
 
@@ -28,5 +32,20 @@ Fixpoint h_seq_times (now : Z) (h : list round) : bool :=
 (* the lease and the two holds as the theorems about reservations need them *)
 Definition h_durations (c : scfg) : bool := (0 <=? hold_ns)%Z && (hold_ns <=? c_lease c)%Z && (0 <=? req_hold_ns)%Z && (req_hold_ns <=? c_lease c)%Z.
 
+(* sequential rounds with a table listing after each: the listing is taken once the round is over (not later than a hold time
+   after it) and before the next packet arrives; at most one ARP responder per address *)
+Fixpoint h_snap_times (now : Z) (h : list round) : bool :=
+  match h with
+  | [] => true
+  | r :: rest => (now <=? r_t r)%Z && (h_round_end r <=? r_tq r)%Z && (r_tq r <=? h_round_end r + hold_ns)%Z && r_has_snap r &&
+                 nodup_b N.eqb (map ar_ip (r_arp r)) && h_snap_times (r_tq r) rest
+  end.
+
+(* the option lists carry the configured lease (whole seconds) and a netmask (what the configuration model of C07/C18 produces) *)
+Definition h_c07_opt (c : scfg) (os : list dhcp_opt) : bool :=
+  (o_lease (decode_options os) =? Z.to_N (c_lease c / 1000000000)) && negb (is_none (o_mask (decode_options os))).
+Definition h_cfg_c07 (c : scfg) : bool := h_c07_opt c (c_default_opts c) && forallb (fun p => h_c07_opt c (snd p)) (c_opts c).
+
 Definition wire_hyps (c : scfg) (h : list round) : bool :=
-  h_cfg_wire c && h_cfg_srv c && h_durations c && forallb (fun r => wf_bytes (r_pkt r)) h && h_seq_times 0%Z h.
+  h_cfg_wire c && h_cfg_srv c && h_durations c && forallb (fun r => wf_bytes (r_pkt r)) h && h_seq_times 0%Z h &&
+  h_cfg_lease c && h_snap_times 0%Z h && h_cfg_c07 c.
